@@ -826,7 +826,17 @@ def _chunk(args):
     for job in args:
         if job[0] == "exact":
             _, fam, kind, names, restore, warm, opts = job
-            r = run_case(tm, kind, names, restore, warm, opts)
+            try:
+                r = run_case(tm, kind, names, restore, warm, opts)
+            except MachineryError:
+                raise
+            except Exception as e:
+                # the library raised while a value was READ after the maps had been applied (e.g. a voxel
+                # grid whose transform became singular): an observation of the tree under test, not a
+                # failure of the harness
+                fails.append({"clause": "raised_while_reading:" + kind, "kind": kind, "maps": names, "restore": restore,
+                              "warm": warm, "family": fam, "exc": repr(e)[:200]})
+                continue
             r["warm"] = warm
             r["family"] = fam
             r["opts"] = opts
